@@ -526,6 +526,8 @@ class Skeletons:
                 return RET
             if f.kind == "start" and n == f"(state=next[state][tag({f.params[0]})])":
                 return seq(("setNext",), RET)
+            if n == "(state=after[state])":
+                return seq(("setAfter",), RET)
             calls = self.helper_call(e, f)
             if len(calls) == 1 and calls[0][1] == 0 and calls[0][2] == len(e):
                 return seq(self.call(calls[0][0], calls[0][3], f), RET)
@@ -784,7 +786,9 @@ def analyse(repo):
     check_init_body(by[("init", "helper")])
     for fn, text in MESSAGES.items():
         cands = [f for f in fns if f.name == fn]
-        if len(cands) != 1 or text not in cands[0].body:
+        if len(cands) != 1:
+            fail(f"DataParser::{fn} not found or overloaded")
+        if re.search(r"\berror\s*\(", cands[0].body) and text not in cands[0].body:
             fail(f"DataParser::{fn}: the message text {text} (used by the harness to classify errors) not found")
     na = by.get(("no_attributes", "start"))
     if na is None or norm(na.body) != 'if(*atts){return error(string("### tag <")+string(name)+string("> cannot have any attributes"));}return 0;':
